@@ -43,6 +43,7 @@ PHASES = {
     ],
     "C03": [
         {"pkg": "e2", "test": "TestC03Retransmission", "phase": "C03/retransmission"},
+        {"pkg": "e2", "test": "TestC03TimerPhase", "phase": "C03/timer-phase"},
     ],
     "C02": [
         {"pkg": "e2", "test": "TestC02Delivery", "phase": "C02/acknowledged-publish-delivered"},
